@@ -649,4 +649,46 @@ theorem eth_coords_length' (w h rx ry : Int) (hw : w % 12 = 0) (hh : h % 12 = 0)
   rw [List.filterMap_eq_map', List.length_map]
   exact ethTriple_perm.length_eq
 
+
+theorem noDivFrom_iff (k lo : Nat) : ∀ c, noDivFrom k lo c = true ↔ ∀ d, lo < d → d ≤ lo + c → k % d ≠ 0 := by
+  intro c
+  induction c with
+  | zero => simp only [noDivFrom, true_iff]; intro d h1 h2; omega
+  | succ c ih =>
+    unfold noDivFrom
+    split
+    · rename_i h0
+      simp only [Bool.false_eq_true, false_iff]
+      intro h
+      exact h (lo + c + 1) (by omega) (by omega) h0
+    · rename_i h0
+      rw [ih]
+      constructor
+      · intro h d h1 h2
+        by_cases hd : d = lo + c + 1
+        · subst hd; exact h0
+        · exact h d h1 (by omega)
+      · intro h d h1 h2
+        exact h d h1 (by omega)
+
+theorem spec_std_dims_fast_iff' (n w h : Nat) : SpecStdDimsFast n w h ↔ SpecStdDims n w h := by
+  unfold SpecStdDimsFast SpecStdDims
+  rw [noDivFrom_iff]
+  constructor
+  · rintro ⟨a, b, c, d, e⟩
+    refine ⟨a, b, c, d, ?_⟩
+    intro x hx hmod hsq
+    by_cases hle : x ≤ h / 12
+    · exact hle
+    · have hs : x ≤ Nat.sqrt (n / 3) := Nat.le_sqrt.2 hsq
+      exact absurd hmod (e x (by omega) (by omega))
+  · rintro ⟨a, b, c, d, e⟩
+    refine ⟨a, b, c, d, ?_⟩
+    intro x h1 h2 hmod
+    have hs : x ≤ Nat.sqrt (n / 3) := by omega
+    have hsq : x * x ≤ n / 3 := Nat.le_sqrt.1 hs
+    have hxk : x ≤ n / 3 := Nat.le_trans (Nat.le_mul_self x) hsq
+    have := e x (by omega) hmod hsq
+    omega
+
 end Rig.C19
